@@ -475,6 +475,20 @@ def h_transitive_sources():
             other = vm.alloc(cls(vm, PDR, R), {"wrapped_field": W.field("Mid", "y"), "inferred": inferred, "source": r.fields["target"], "target": r.fields["source"]}, tag="other-class-edge")
             sel = sel and all(vm.truth(vm.call(c[1], [same], {})) is True and vm.truth(vm.call(c[1], [other], {})) is False for c in calls.values())
         ctx.check(f"{R}.infer_transitive_relations::exactly-the-edges-of-the-same-descriptor-class-are-combined-asserted-or-inferred", z3.BoolVal(sel))
+        # an edge whose FAR end has died (registered, not swept yet) is nothing to compose with: the new relation's consequences are
+        # those among live instances, whatever died before (C14)
+        def wrapper(alive, tag):
+            w = vm.alloc(cls(vm, SG, "WrappedInstance"), {}, tag=tag)
+            w.fields["__inst__"] = W.instance(tag) if alive else None
+            return w
+        dead_ok = True
+        for direction, c in calls.items():
+            far_dead = wrapper(False, "dead-far-end")
+            near = r.fields["target"] if direction == "out" else r.fields["source"]
+            e_dead = vm.alloc(cls(vm, PDR, R), {"wrapped_field": W.field("Trans", "x"), "inferred": False,
+                                               "source": near if direction == "out" else far_dead, "target": far_dead if direction == "out" else near}, tag="edge-to-a-dead-instance")
+            dead_ok = dead_ok and vm.truth(vm.call(c[1], [e_dead], {})) is False
+        ctx.check(f"{R}.infer_transitive_relations::edges-of-instances-that-died-and-are-not-swept-yet-are-not-composed", z3.BoolVal(dead_ok and len(calls) == 2))
     return Harness("transitive-sources", run, spec=Spec())
 
 
